@@ -896,6 +896,7 @@ MATE_FENS = [
 def run_c11(o, tier, rng, prep):
     legal = gens.filter_legal(MATE_FENS)
     roots = [(f, [], f) for f, n, _ in legal if n > 0]
+    roots += [(f, [], f) for f, n, _ in gens.filter_legal(UNDERPROMOTION_FENS) if n > 0 and sum(c.isalpha() for c in f.split(" ")[0]) <= 10]
     extra = small_positions(rng, 60 if tier == "quick" else 1200, max_pieces=5)
     roots += extra[: (25 if tier == "quick" else 600)]
     budget = 2500 if tier == "quick" else 12000
@@ -1318,13 +1319,24 @@ def go_chain_corpus(o, tier, rng):
     return ok
 
 
+HEAVY_FENS = [
+    "1q2k1q1/qq3qqq/8/8/8/8/QQ3QQQ/1Q2K1Q1 w - - 0 1",      # long capture sequences under the first root move
+    "r3k2r/p1ppqpb1/bn2pnp1/3PN3/1p2P3/2N2Q1p/PPPBBPPP/R3K2R w KQkq - 0 1",
+    "r4rk1/1pp1qppp/p1np1n2/2b1p1B1/2B1P1b1/P1NP1N2/1PP1QPPP/R4RK1 w - - 0 10",
+]
+
+
 def session_model_corr(o, tier, rng):
-    """the session model's go step against the real search: the answer is one of the sends (in-process, virtual clock)"""
+    """the session model's go step against the real search: the answer is one of the sends (in-process, virtual clock);
+    the polling loop of a go ends iff something was sent, so every non-terminal root must yield a send for every expiry index"""
     pos = small_positions(rng, 20, max_pieces=8)[: (8 if tier == "quick" else 60)]
     cases = []
     for start, moves, fen in pos:
-        for k in (0, 1, 5, 40):
+        for k in (0, 1, 2, 3, 5, 40):
             cases.append("search\t%s\t%d" % (pos_cmd(start, moves), k))
+    for fen in HEAVY_FENS[1:]:          # (the sixteen-queen position is replayed on the binary only: its quiescence is too large for the model)
+        for k in range(0, 6):
+            cases.append("search\tposition fen %s\t%d" % (fen, k))
     res = V.run_cases(cases)
     mm, _ = V.compare(res, use_spec=False)
     o.evaluations += len(res)
@@ -1333,6 +1345,14 @@ def session_model_corr(o, tier, rng):
     for r in mm[:2]:
         o.violation("corr", "search correspondence broken on %s: %s" % (r["case"][:160], V.first_diff(r.get("I"), r.get("M"))),
                     {"correspondence": "search", "case": r["case"], "impl": r.get("I"), "model": r.get("M")})
+    oks = True
+    for r in res:
+        d = parse_search(r.get("I"))
+        if d.get("bad") or d.get("panic") or not d.get("sends"):
+            oks = False
+            o.violation("input", "the search hands nothing back, so this go would never be answered: %s -> %s" % (r["case"], (r.get("I") or "")[:120]),
+                        {"case": r["case"], "impl": r.get("I")})
+    o.oblige("every go-step search hands a move back (the polling loop ends iff something was sent)", oks)
 
 
 @prop("C08", "C08.v", ["C08_terminal_is_answered", "C08_answered_iff_sent", "C08_isready_after"], binary=True)
@@ -1392,6 +1412,26 @@ def run_c08(o, tier, rng, prep):
         if lines[-1] is None:
             ok = False
             o.violation("input", "engine no longer serves go after the session", {"lines": lines[-5:]})
+    finally:
+        eng.close()
+    session_model_corr(o, tier, rng)
+    # tiny slices on positions whose first root move opens a long quiescence tree
+    eng = blackbox.Engine(V.BINARY)
+    try:
+        eng.handshake()
+        for fen in HEAVY_FENS:
+            for clock in (101, 102, 110, 125, 140, 163):
+                eng.send("position fen " + fen)
+                eng.send("go wtime %d btime %d movestogo 1" % (clock, clock))
+                lines = eng.read_until(lambda l: l.startswith("bestmove"), timeout=6)
+                o.evaluations += 1
+                if lines[-1] is None or not eng.isready(3):
+                    ok = False
+                    o.violation("input", "no bestmove/readyok with a tiny slice: position fen %s | go wtime %d btime %d movestogo 1" % (fen, clock, clock),
+                                {"fen": fen, "clock": clock, "lines": lines[-3:]})
+                    eng.close()
+                    eng = blackbox.Engine(V.BINARY)
+                    eng.handshake()
     finally:
         eng.close()
     o.distinct += o.hist.get("terminal", 0) + o.hist.get("non-terminal", 0)
